@@ -60,12 +60,12 @@ theorem enc_list_indef (x : Cbor) (xs : List Cbor) (rest : Bytes) (hv : x.valid 
 
 
 theorem rawListLen_enc (f : Form) (xs : List Cbor) (rest : Bytes)
-    (hv : (mkArr f xs).valid = true) (hd : depth (mkArr f xs) ≤ maxNested) :
+    (hv : (mkArr f xs).valid = true) (hd : depth (mkArr f xs) ≤ maxNested) (he : elemsOk xs = true) :
     rawListLen (enc (mkArr f xs) ++ rest) = some xs.length := by
   unfold rawListLen
   rw [decode_enc _ hv rest]
   have : ¬ depth (mkArr f xs) > maxNested := by omega
-  cases f <;> simp [mkArr] at this ⊢ <;> simp [this]
+  cases f <;> simp [mkArr] at this ⊢ <;> simp [this, he]
 
 theorem firstViaValue_enc (f : Form) (w : W) (k : Nat) (xs : List Cbor) (rest : Bytes)
     (hv : (mkArr f (.int false w k :: xs)).valid = true) (hk : k ≤ maxInt) :
@@ -83,9 +83,10 @@ theorem tagOfTree_enc (f : Form) (w : W) (k : Nat) (xs : List Cbor) (rest : Byte
   cases f <;> simp [mkArr]
 
 theorem listLength_enc (f : Form) (x : Cbor) (xs : List Cbor) (rest : Bytes)
-    (hv : (mkArr f (x :: xs)).valid = true) (hd : depth (mkArr f (x :: xs)) ≤ maxNested) :
+    (hv : (mkArr f (x :: xs)).valid = true) (hd : depth (mkArr f (x :: xs)) ≤ maxNested)
+    (he : elemsOk (x :: xs) = true) :
     listLength (enc (mkArr f (x :: xs)) ++ rest) = some (xs.length + 1) := by
-  have hraw := rawListLen_enc f (x :: xs) rest hv hd
+  have hraw := rawListLen_enc f (x :: xs) rest hv hd he
   cases f with
   | indef =>
     have hx : x.valid = true := by simp only [mkArr, Cbor.valid, validL, Bool.and_eq_true] at hv; exact hv.1
@@ -128,9 +129,10 @@ theorem decodeId_unfold (vok : Bool) (b0 b1 : UInt8) (r : Bytes) :
     `DecodeIdFromList` returns the first item. -/
 theorem decodeId_enc (f : Form) (w : W) (k : Nat) (xs : List Cbor) (rest : Bytes)
     (hv : (mkArr f (.int false w k :: xs)).valid = true)
-    (hd : depth (mkArr f (.int false w k :: xs)) ≤ maxNested) (hk : k ≤ maxInt) :
+    (hd : depth (mkArr f (.int false w k :: xs)) ≤ maxNested) (hk : k ≤ maxInt)
+    (he : elemsOk xs = true) :
     decodeIdFromList true (enc (mkArr f (.int false w k :: xs)) ++ rest) = some k := by
-  have hlen := listLength_enc f _ xs rest hv hd
+  have hlen := listLength_enc f _ xs rest hv hd (by simp [elemsOk, tagChainOk, he])
   have hfirst := firstViaValue_enc f w k xs rest hv hk
   cases f with
   | indef =>
